@@ -110,15 +110,15 @@ func (u unwrap) idx(pt uint8, seq uint16, start uint16) int {
 
 type wire struct {
 	mu        sync.Mutex
-	units     []unit           // everything written by either side (UDP datagrams, interleaved frames inside TLS)
-	arrived   map[pktKey]bool  // RTP units that reached the receiving side's tap unaltered
-	tampered  map[pktKey]bool  // RTP units altered on their way (original identity)
+	units     []unit          // everything written by either side (UDP datagrams, interleaved frames inside TLS)
+	arrived   map[pktKey]bool // RTP units that reached the receiving side's tap unaltered
+	tampered  map[pktKey]bool // RTP units altered on their way (original identity)
 	nTampered int
 	nTampRTCP int
 	rtpSeen   int
 	rtcpSeen  int
 	inUnwrap  unwrap
-	keepIn    bool   // record every unit handed to the receiving side (before alteration)
+	keepIn    bool // record every unit handed to the receiving side (before alteration)
 	inUnits   []unit
 	in        *E2EInput
 	rng       *rand.Rand
@@ -363,6 +363,7 @@ type handler struct {
 	medias   []*description.Media
 	rx       []rxPkt
 	rtcpRx   int
+	appRx    []string // data of the ApplicationDefined RTCP packets received
 	decErrs  []string
 	lost     uint64
 	session  *gortsplib.ServerSession
@@ -411,9 +412,12 @@ func (h *handler) OnPlay(ctx *gortsplib.ServerHandlerOnPlayCtx) (*base.Response,
 		h.rx = append(h.rx, rxPkt{h.indexOf(m, h.medias), pkt})
 		h.mu.Unlock()
 	})
-	ctx.Session.OnPacketRTCPAny(func(_ *description.Media, _ rtcp.Packet) {
+	ctx.Session.OnPacketRTCPAny(func(_ *description.Media, pk rtcp.Packet) {
 		h.mu.Lock()
 		h.rtcpRx++
+		if app, ok := pk.(*rtcp.ApplicationDefined); ok {
+			h.appRx = append(h.appRx, string(app.Data))
+		}
 		h.mu.Unlock()
 	})
 	return &base.Response{StatusCode: base.StatusOK}, nil
@@ -426,9 +430,12 @@ func (h *handler) OnRecord(ctx *gortsplib.ServerHandlerOnRecordCtx) (*base.Respo
 		h.rx = append(h.rx, rxPkt{h.indexOf(m, ms), pkt})
 		h.mu.Unlock()
 	})
-	ctx.Session.OnPacketRTCPAny(func(_ *description.Media, _ rtcp.Packet) {
+	ctx.Session.OnPacketRTCPAny(func(_ *description.Media, pk rtcp.Packet) {
 		h.mu.Lock()
 		h.rtcpRx++
+		if app, ok := pk.(*rtcp.ApplicationDefined); ok {
+			h.appRx = append(h.appRx, string(app.Data))
+		}
 		h.mu.Unlock()
 	})
 	return &base.Response{StatusCode: base.StatusOK}, nil
@@ -483,15 +490,24 @@ func freeUDPPair(r *rand.Rand) int {
 }
 
 func startServer(w *wire, r *rand.Rand, tlsOn, udpOn bool) (*testServer, error) {
+	return startServerOpt(w, r, tlsOn, udpOn, 0)
+}
+
+func startServerMax(w *wire, r *rand.Rand, maxPacketSize int) (*testServer, error) {
+	return startServerOpt(w, r, true, true, maxPacketSize)
+}
+
+func startServerOpt(w *wire, r *rand.Rand, tlsOn, udpOn bool, maxPacketSize int) (*testServer, error) {
 	ts := &testServer{h: &handler{}, w: w, tlsOn: tlsOn, udpOn: udpOn}
 	var lastErr error
 	for try := 0; try < 5; try++ {
 		s := &gortsplib.Server{
-			Handler:      ts.h,
-			RTSPAddress:  "127.0.0.1:0",
-			ListenPacket: w.listenPacket("server"),
-			ReadTimeout:  5 * time.Second,
-			WriteTimeout: 5 * time.Second,
+			Handler:       ts.h,
+			RTSPAddress:   "127.0.0.1:0",
+			ListenPacket:  w.listenPacket("server"),
+			ReadTimeout:   5 * time.Second,
+			WriteTimeout:  5 * time.Second,
+			MaxPacketSize: maxPacketSize,
 		}
 		ln := func(network, address string) (net.Listener, error) {
 			l, err := net.Listen("tcp", "127.0.0.1:0")
@@ -875,7 +891,7 @@ func runSession(c *corr.Ctx, in *E2EInput, name string) {
 				e2eViol(c, "RTCP payload bytes never appear in clear", "sec-e2e-rtcp-clear", in, "SRTCP encryption flag not set")
 			}
 			// plain length from the RTCP length field(s): compound packets are walked in the clear part only
-			plainLen := (int(un.data[2])<<8|int(un.data[3]) + 1) * 4
+			plainLen := (int(un.data[2])<<8 | int(un.data[3]) + 1) * 4
 			if un.data[1] == 200 || un.data[1] == 201 { // first packet of the compound; gortsplib sends single reports
 				if len(un.data) != plainLen+14 {
 					e2eViol(c, "SRTCP overhead = 14 bytes", "sec-e2e-rtcp-size", in, fmt.Sprintf("plain %d wire %d", plainLen, len(un.data)))
@@ -1061,6 +1077,8 @@ func runE2E(c *corr.Ctx) {
 	}
 	runMulti(c)
 	runSwitches(c)
+	runUnobservedAll(c)
+	runRTCPSizes(c)
 	runAdmission(c)
 	runClientSide(c)
 }
@@ -1069,6 +1087,10 @@ func replayE2E(c *corr.Ctx, in *Input) {
 	switch in.Kind {
 	case "e2e":
 		runSession(c, in.E2E, "replay")
+	case "rtcpsize":
+		runRTCPSize(c, in.RTCPSize, "rtcpsize-replay")
+	case "unobserved":
+		runUnobserved(c, in.Unobserved, "unobserved-replay")
 	case "switch":
 		runSwitchCase(c, in.Switch, "switch-replay")
 	case "multi":
